@@ -270,8 +270,13 @@ def run_case(case, ctx):
                 outputs = {f'o{i}': '/'.join(k) for i, k in enumerate(keys)}
                 T, dts_ = rnd.choice([4.0, 6.0, 8.0]), 0.05
                 mech['oscillator_runs'] = 1
-            if solver == 'scipy':
-                skw.update(method=rnd.choice(['RK45', 'RK45', 'RK23', 'DOP853']) if case.get('oscillator') else 'RK45', rtol=1e-9, atol=1e-11)
+            if case.get('oscillator'):
+                # moderate tolerance: the controller really rejects steps; the result must still be within ~50*rtol of the solution
+                if solver == 'scipy':
+                    skw.update(method=rnd.choice(['RK45', 'RK45', 'RK23', 'DOP853']))
+                skw.update(rtol=1e-6, atol=1e-9)
+            elif solver == 'scipy':
+                skw.update(method='RK45', rtol=1e-9, atol=1e-11)
             else:
                 skw.update(rtol=1e-9, atol=1e-11)
             try:
